@@ -40,6 +40,11 @@ def judge(res, facts, inject, label, base, cnt):
     if facts.get("reuse_probe", "ok") != "ok":
         out.append((f"pooled-connection-cannot-serve:{facts['reuse_probe']}", {"conns_before": facts["conns"],
                                                                                "conns_after": facts.get("reuse_probe_conns")}))
+    # the connection a request used is busy, idle in the pool, or closed and gone: an open stream that no pooled
+    # connection owns belongs to a connection that is none of these (it cannot be reused, expire or be evicted)
+    cnt["oracle_used_connection"] = cnt.get("oracle_used_connection", 0) + 1
+    if facts.get("orphans"):
+        out.append(("connection-outside-the-pool-left-open", {"orphans": facts["orphans"][:3]}))
     cnt["oracle_p3"] += 1
     p = facts["probe"]
     if p["got"] < p["wanted"]:
@@ -60,7 +65,8 @@ def judge(res, facts, inject, label, base, cnt):
         out.append((f"cocaller-failed:{exc_name(o.exc) if o.kind == 'exc' else o.kind}", {"who": name, "outcome": repr(o)}))
     # one defect, one finding: report the primary symptom, keep the rest as detail
     if len(out) > 1:
-        order = ["stuck", "request-still-counted", "capacity-lost", "hang", "pooled-connection-cannot-serve", "cocaller-failed"]
+        order = ["stuck", "request-still-counted", "capacity-lost", "hang", "pooled-connection-cannot-serve",
+                 "connection-outside-the-pool-left-open", "cocaller-failed"]
         out.sort(key=lambda x: next((i for i, p in enumerate(order) if x[0].startswith(p)), 9))
         out = [(out[0][0], {"primary": out[0][1], "also": [x[0] for x in out[1:]]})]
     return out
